@@ -62,6 +62,7 @@ impl World {
         if starts {
             self.m.borrow_mut().exec_expected += 1;
             self.stats.borrow_mut().collections += 1;
+            self.buf_collection_starts();
         } else {
             self.stats.borrow_mut().bump("collect_requested_inside_collection");
         }
@@ -83,10 +84,30 @@ impl World {
             return;
         }
         self.buf_model_collection_end();
+        {
+            let mut m = self.m.borrow_mut();
+            let mut survived = false;
+            for o in m.objs.iter_mut() {
+                if o.resurrected {
+                    o.resurrected = false;
+                    survived |= o.status == Status::Live;
+                }
+            }
+            if survived {
+                self.stats.borrow_mut().bump("resurrected_object_survived_collection");
+            }
+        }
         if !HAS_AUTO {
             return;
         }
         let Some((_, _, pct, thr)) = compat::cfg_read() else { return };
+        {
+            let mut m = self.m.borrow_mut();
+            if m.last_threshold != 0 && m.last_threshold != thr {
+                self.stats.borrow_mut().bump("threshold_changed");
+            }
+            m.last_threshold = thr;
+        }
         let Ok(now) = rust_cc::state::allocated_bytes() else { return };
         let a = now.saturating_sub(created_box_size);
         let mut k = thr;
@@ -190,9 +211,13 @@ impl World {
     pub fn note_creation(&self, pred: bool) {
         let mut m = self.m.borrow_mut();
         m.trace_seen_in_call = false;
+        if !m.frames.is_empty() {
+            self.stats.borrow_mut().bump("creation_from_callback");
+        }
         if pred {
             m.exec_expected += 1;
             drop(m);
+            self.buf_collection_starts();
             let mut st = self.stats.borrow_mut();
             st.collections += 1;
             st.bump("auto_collection_fired");
@@ -399,15 +424,23 @@ impl World {
                 *node.self_weak.borrow_mut() = self_weak;
                 // install the clones the script asked for
                 if nslots > 0 {
-                    let mut st = node.store.borrow_mut();
-                    let mut edges = Vec::new();
-                    st.walk_mut(&mut edges);
-                    for (slot, cc, target) in slot_sets {
-                        let s = (slot as u32 % nslots) as usize;
-                        let key = KEY_SLOT | s as u32;
-                        let old = edges[s].set(cc);
-                        w.m.borrow_mut().objs[id as usize].edges.insert(key, target);
-                        drop(old); // always None: each slot is set at most once (deduplicated by the script runner)
+                    let mut replaced: Vec<(AnyCc, ObjId)> = Vec::new();
+                    {
+                        let mut st = node.store.borrow_mut();
+                        let mut edges = Vec::new();
+                        st.walk_mut(&mut edges);
+                        for (slot, cc, target) in slot_sets {
+                            let s = (slot as u32 % nslots) as usize;
+                            let key = KEY_SLOT | s as u32;
+                            let old = edges[s].set(cc);
+                            let old_t = w.m.borrow_mut().objs[id as usize].edges.insert(key, target);
+                            if let (Some(oc), Some(ot)) = (old, old_t) {
+                                replaced.push((oc, ot)); // two requests landed on the same position
+                            }
+                        }
+                    }
+                    for (oc, ot) in replaced {
+                        w.drop_cc(oc, ot, "a clone overwritten inside a new_cyclic closure");
                     }
                 } else {
                     for (_, cc, target) in slot_sets {
@@ -454,6 +487,9 @@ impl World {
             let c = World::count(&m, o);
             if c == 0 && m.frames.iter().any(|f| f.collector) {
                 m.objs[o as usize].zero_in_collection = true;
+            }
+            if c == 0 && !m.frames.iter().any(|f| f.collector) && (m.objs[o as usize].was_buffered || m.objs[o as usize].processed_by_collection) {
+                self.stats.borrow_mut().bump("last_owner_drop_of_buffered_or_processed");
             }
             if c > 0 && m.objs[o as usize].status == Status::Live {
                 if m.frames.iter().any(|f| f.collector) {
